@@ -60,8 +60,19 @@ pub fn stats_case<T: Sc>(rng: &mut Rng, idx: usize, thorough: bool) -> FitCase<T
     } else {
         1.0
     };
+    // two cases in thirty (one per scalar width, cycled): the UNITS of the data are such that signal and
+    // observations are ~gain and the weights ~1/gain with gain = 1e-155 (1e-20 in single precision): every
+    // weighted quantity (W·y, W·Phi, W·J) is ordinary, but the SQUARE of a weight is outside the range of
+    // the type.  Weights act as row scaling, nothing else (round 12).  (The opposite direction - huge
+    // signal, tiny weights - overflows j^T C j in the confidence band: floating-point range, not judged.)
+    let gain_mode = !interp && !weak && (idx % 30 == 7 || idx % 30 == 17 || idx % 30 == 22);
+    let gain: f64 = if T::WIDTH == 32 { 1e-20 } else { 1e-155 };
+    let amp = if gain_mode { 1.0 } else { amp };
     let coef = DVector::from_iterator(m, (0..m).map(|_| T::of(amp * (rng.uniform(1.0, 3.0) * 16.0).round() / 16.0)));
-    let col = &phi * coef;
+    // (gain mode: the BASIS FUNCTIONS carry the factor - models::KERNEL_GAIN while the case runs - and the
+    // coefficients stay ordinary, so that the singular values of W·Phi are ordinary too)
+    let col = (&phi * coef) * T::of(if gain_mode { gain } else { 1.0 });
+    // (in gain mode the weighted noise is O(1e-3): sd_i = noise / |w_i| is ~1e-3·gain)
     let noise = amp * *rng.pick(&[1e-3, 1e-2, 0.05]);
     let wkind = if interp { WKind::Zeros } else { WKINDS[idx % WKINDS.len()] };
     // zero weights are legal: the degrees of freedom stay N - M - P
@@ -69,6 +80,13 @@ pub fn stats_case<T: Sc>(rng: &mut Rng, idx: usize, thorough: bool) -> FitCase<T
     if interp {
         let z = (idx / 20) % n;
         w = Some((0..n).map(|i| if i == z { 0.0 } else { 1.0 + (i as f64) * 0.5 }).collect());
+    }
+    if gain_mode {
+        let base: Vec<f64> = match w {
+            Some(v) => v.iter().map(|x| if *x == 0.0 { 1.0 } else { *x }).collect(),
+            None => (0..n).map(|_| (rng.uniform(0.5, 2.0) * 16.0).round() / 16.0).collect(),
+        };
+        w = Some(base.iter().map(|x| x / gain).collect());
     }
     // a user-chosen singular-value threshold concerns the linear sub-problem only
     let eps: Option<T> = if weak {
@@ -99,7 +117,7 @@ pub fn stats_case<T: Sc>(rng: &mut Rng, idx: usize, thorough: bool) -> FitCase<T
         eps,
         init,
         history: vec![],
-        origin: "stats",
+        origin: if gain_mode { "statsgain" } else { "stats" },
     };
     let threads = if base.flavour.is_par() { 2 } else { 0 };
     // most fits converge; some are made to give up (patience exhausted, tolerances below machine
@@ -113,6 +131,17 @@ pub fn stats_case<T: Sc>(rng: &mut Rng, idx: usize, thorough: bool) -> FitCase<T
 }
 
 pub fn emit_stats_case<T: Sc>(out: &mut Out, fc: &FitCase<T>) {
+    let gain_case = fc.base.origin == "statsgain";
+    if gain_case {
+        set_kernel_gain(if T::WIDTH == 32 { 1e-20 } else { 1e-155 });
+    }
+    emit_stats_case_inner(out, fc);
+    if gain_case {
+        set_kernel_gain(1.0);
+    }
+}
+
+fn emit_stats_case_inner<T: Sc>(out: &mut Out, fc: &FitCase<T>) {
     let c = &fc.base;
     let delta = c.recipe.n() as i64 - (c.recipe.m() + c.recipe.p()) as i64;
     // one case in four: the solver value has already been used for a fit of the same shape
@@ -168,7 +197,7 @@ pub fn emit_stats_case<T: Sc>(out: &mut Out, fc: &FitCase<T>) {
     // C06 twin: the unweighted problem whose model rows, derivative rows and observations are scaled
     let twin: Option<Result<StatsOut<T>, String>> = match &c.w {
         Some(w) if !c.flavour.is_par() || true => {
-            let m = AnyModel::Dyn(Box::new(RowModel {
+            let m = AnyModel::Row(Box::new(RowModel {
                 inner: any_model(&c.recipe, &c.init, c.built),
                 scale: Some(w.clone()),
                 overwrite: vec![],
